@@ -176,12 +176,20 @@ def model_cfg(draw, *, kinds=("logistic", "linear", "shared_speed_logistic", "jo
         if d >= 2 and sd == 0:
             kw["source_dimension"] = 1  # dimension>=2, source_dimension=0 joint model is not constructible (see DESIGN C12)
     elif kind == "mixture_logistic":
-        kw["n_clusters"] = draw(st.integers(2, 3))
+        kw["n_clusters"] = 2
         kw["obs_models"] = "gaussian-diagonal"
     else:
         opts = list(noises) + (["bernoulli"] if allow_bernoulli and kind == "logistic" else [])
         kw["obs_models"] = draw(st.sampled_from(opts))
     return dict(kind=kind, kwargs=kw)
+
+
+def min_ind_for(cfg):
+    """Smallest cohort the kind's initialisation supports (mixture splits individuals into equal initial clusters:
+    an empty initial cluster gives NaN parameters)."""
+    if cfg["kind"] == "mixture_logistic":
+        return 3 * cfg["kwargs"].get("n_clusters", 2)
+    return 2
 
 
 def data_kind_for(cfg):
